@@ -261,6 +261,12 @@ def run():
     hists = r.json_lines("HIST")
     # only maximal histories need replaying (every prefix is replayed on the way)
     maximal = [h for h in hists if len(h) == maxlen]
+    cap = 6000 if chk.quick else 40000
+    if len(maximal) > cap:
+        chk.notes["maximal_histories_enumerated"] = len(maximal)
+        common.rng("c12").shuffle(maximal)
+        maximal = maximal[:cap]
+        chk.cov["exhaustive"] = False
     # a history without any call checks only the state projection: keep those too
     tasks = [(h, work) for h in maximal]
     replayed = pristine_map(_run_history, tasks)
@@ -309,7 +315,7 @@ def run():
     chk.notes["pristine_oracle_runs"] = len(need)
     chk.sample({"history": [s["op"] for s in maximal[len(maximal) // 2]]})
     chk.sample({"history": [s["op"] for s in maximal[-1]]})
-    chk.cov["exhaustive"] = True
+    chk.cov["exhaustive"] = "maximal_histories_enumerated" not in chk.notes
     chk.cov["rule"] = ("all histories of length %d over the alphabet {%d calls, %d target sets x {api, flags}, %d Ignore maps, reset} "
                        "enumerated by TLC; each replayed in its own pristine interpreter; distinct by operation prefix"
                        % (maxlen, len(calls), len(targets), len(maps)))
